@@ -62,7 +62,7 @@ func init() {
 			ss := histSuites("c06/", cfgs, bound, func(h *hist) []Monitor { return []Monitor{newMonC06()} })
 			// label-table sweep: every number of dealt-in players 2..10 (all present) on 10 seats, two fold-out hands,
 			// at most one departure / bust-free change in between (a departure of the dealer or SB gives a dead slot,
-			// so every slot count is reached with and without dead seats)
+			// so every slot count is reached without, with one and with two dead seats)
 			var sweep []*histCfg
 			for k := 2; k <= 10; k++ {
 				tc := defaultCfg(10)
@@ -71,9 +71,10 @@ func init() {
 					init = append(init, seatSpec{id: string(rune('a' + i)), seat: (i * 10) / k, chips: 9, joined: true})
 				}
 				sweep = append(sweep, &histCfg{name: fmt.Sprintf("sweep/dealt-in-%d-on-10-seats", k), tcfg: tc, init: init, hands: 2,
-					lines: []string{"foldout"}, newStack: 5, between: []string{"none", "leave-live"}})
+					lines: []string{"foldout"}, newStack: 5, between: []string{"none", "leave-live"}, between2: true})
 			}
-			return append(ss, histSuites("c06/", sweep, 1, func(h *hist) []Monitor { return []Monitor{newMonC06()} })...)
+			// two departures in one gap: dealer seat and SB seat both dead in the same hand
+			return append(ss, histSuites("c06/", sweep, 2, func(h *hist) []Monitor { return []Monitor{newMonC06()} })...)
 		},
 	})
 	register(&Check{
